@@ -66,6 +66,8 @@ fn run_path2(prop: &'static str, sealed: bool, tcp: bool, cfg_idx: Option<u8>, p
     let mut real = Real::new(tcp, base_instant());
     let mut spec = Spec::new(tcp);
     let mut steps: Vec<Step> = Vec::new();
+    // set once the path went on after a breach that belongs to another property
+    let diverged = std::cell::Cell::new(false);
     let mut exec = |spec: &mut Spec, real: &mut Real, steps: &mut Vec<Step>, act: Act, now: i64, acc: &mut Acc| -> bool {
         let st = Step { act, now };
         acc.evaluations += 1;
@@ -87,7 +89,11 @@ fn run_path2(prop: &'static str, sealed: bool, tcp: bool, cfg_idx: Option<u8>, p
             // course, and what this property says about the steps that follow is still judged (a request
             // that silently left the outstanding set is C05's finding at this step and C06's / C18's at
             // the retransmission that never comes)
-            return br.iter().all(|b| b.property != prop);
+            let foreign = br.iter().all(|b| b.property != prop);
+            if foreign {
+                diverged.set(true);
+            }
+            return foreign;
         }
         true
     };
@@ -95,7 +101,9 @@ fn run_path2(prop: &'static str, sealed: bool, tcp: bool, cfg_idx: Option<u8>, p
         return;
     }
     let seal = if sealed { Seal::Sha1 } else { Seal::None };
-    if !exec(&mut spec, &mut real, &mut steps, Act::Send { id: 0, dest: 0, seal, shape: 0 }, 0, acc) {
+    // (how the builder reaches send - as built, through into_owned / clone / clone_from - rotates with the configuration)
+    let provenance = (cfg_idx.map_or(0, |c| c as u8 + 1) % 4) << 4;
+    if !exec(&mut spec, &mut real, &mut steps, Act::Send { id: 0, dest: 0, seal, shape: provenance }, 0, acc) {
         return;
     }
     if let Some(c) = cfg_idx {
@@ -108,6 +116,9 @@ fn run_path2(prop: &'static str, sealed: bool, tcp: bool, cfg_idx: Option<u8>, p
     while !spec.live.is_empty() {
         guard += 1;
         if guard > 80 {
+            if diverged.get() {
+                return; // the reference and the agent parted ways at another property's breach: reported there
+            }
             acc.violation(Violation::new("C05", "never-completes/schedule", "the transaction is still outstanding after 80 service polls", "completion", "still outstanding", super::model::replay_json(tcp, &steps, None)));
             return;
         }
